@@ -149,7 +149,8 @@ class ComponentCatalog:
                 if interface_labels is not None:
                     # the sliver gets labels of its own: local_name is written into them below and the
                     # caller may have passed the same object for several ports
-                    isliver.set_labels(Labels.update(interface_labels[id_index]))
+                    given = interface_labels[id_index]
+                    isliver.set_labels(Labels.update(given) if given is not None else None)
                 # set local_name to port name from catalog, however for sr-iov cards it needs to
                 # be a list of identical names. We use bdf labels as indicator of how many devices
                 # are behind it.
